@@ -748,6 +748,51 @@ def varstore_optimize_subset_prune_keep_values(tier, rnd):
 
 
 @check("C09")
+def varstore_optimize_more_rows_than_one_vardata(tier, rnd):
+    """VarStore.optimize on a store whose rows of ONE encoding do not fit into a single VarData
+    (more than 0xFFFF distinct rows, spread over two input VarData): the returned old -> new
+    mapping sends every item to a row with the same delta per region (regions compared by their
+    axis coordinates), the store's layout is consistent, and no VarData has more than 0xFFFF rows."""
+    from fontTools.varLib.builder import buildVarRegionList, buildVarData, buildVarStore
+    r = Result("one generated store per shape: 1 axis / 2 regions, rows (200 + i % 300, 200 + i // 300) split over two VarData "
+               "(40000 + k rows, k so that the total is 65535, 65536 or 70100); distinct = (total rows, use_NO_VARIATION_INDEX)")
+    regions = [{"a": (0.0, 0.5, 1.0)}, {"a": (0.5, 1.0, 1.0)}]
+    for total in (65535, 65536, 70100):
+        rows = [[200 + (i % 300), 200 + (i // 300)] for i in range(total)]
+        datas = [buildVarData([0, 1], rows[:40000], optimize=False), buildVarData([1, 0], [[b, a_] for a_, b in rows[40000:]], optimize=False)]
+        store = buildVarStore(buildVarRegionList(regions, ["a"]), datas)
+
+        def region_key(st, i):
+            return tuple((ra.StartCoord, ra.PeakCoord, ra.EndCoord) for ra in st.VarRegionList.Region[i].VarRegionAxis)
+
+        def row_view(st, vi):
+            d = st.VarData[vi >> 16]
+            return {region_key(st, ri): v for ri, v in zip(d.VarRegionIndex, d.Item[vi & 0xFFFF]) if v}
+        before = {vi: row_view(store, vi) for vi in all_varidxes(store)}
+        for useNo in (True, False):
+            r.case((total, useNo))
+            new = copy.deepcopy(store)
+            try:
+                mapping = new.optimize(use_NO_VARIATION_INDEX=useNo)
+            except Exception as e:
+                r.fail("optimize of %d same-encoding rows raised %s: %s" % (total, type(e).__name__, e))
+                continue
+            err = check_store_layout(new)
+            if err:
+                r.fail("optimize of %d same-encoding rows: %s" % (total, err))
+                continue
+            if any(len(d.Item) > 0xFFFF for d in new.VarData):
+                r.fail("optimize of %d same-encoding rows: a VarData has %d rows" % (total, max(len(d.Item) for d in new.VarData)))
+            bad = [vi for vi in before if vi not in mapping or row_view(new, mapping[vi]) != before[vi]]
+            if bad:
+                vi = bad[0]
+                r.fail("optimize of %d same-encoding rows (VarData sizes %r): %d items changed value, e.g. 0x%08X -> 0x%08X: deltas %r became %r"
+                       % (total, [len(d.Item) for d in new.VarData], len(bad), vi, mapping.get(vi, -1), before[vi], row_view(new, mapping[vi]) if vi in mapping else None))
+    r.sample({"rows": 70100, "regions": regions})
+    return r
+
+
+@check("C09")
 def varstore_builder_matches_model(tier, rnd):
     """OnlineVarStoreBuilder over several models (full and sparse sub-models sharing regions):
     for every stored master vector, base + VarStoreInstancer[varIdx] at every location equals
